@@ -65,6 +65,16 @@ func retM(r, z *big.Int) string {
 	return "other"
 }
 
+// bitProbes are the bit indices probed by every Props step (word boundaries of
+// the 64-bit fast path and of the 128-bit inline array).
+var bitProbes = []int{0, 1, 2, 31, 32, 33, 62, 63, 64, 65, 66, 95, 96, 126, 127, 128, 129, 191, 192, 255, 256}
+
+// raw inputs for the decoders: what arrives from outside is not always the
+// output of the matching encoder.
+var rawJSON = []string{"null", "0", "-0", "12", "-12", `"12"`, " 12 ", "1e2", "12.0", "0x10", "12abc", "", "true", "[1]", "340282366920938463463374607431768211456", "-340282366920938463463374607431768211457", "18446744073709551616", "+5", "00012", "1_000"}
+var rawText = []string{"", "0", "-0", "+12", "12", "-12", "0b11", "0o17", "0x1F", "1_000", " 5", "5 ", "12abc", "null", "<nil>", "340282366920938463463374607431768211455", "-18446744073709551616", "9223372036854775808", "1e3", "--1"}
+var rawGob = []string{"", "00", "01", "02", "03", "0201", "0301", "02ffffffffffffffff", "03ffffffffffffffffff", "020000000000000001", "04", "0401", "ff", "0200", "0300", "02" + strings.Repeat("ab", 40), "03" + strings.Repeat("01", 17), "020100000000000000000000000000000000"}
+
 var fixedPrimes = []string{"2", "3", "5", "7", "13", "101", "65537", "4294967291", "4294967311", "18446744073709551557", "18446744073709551629",
 	"340282366920938463463374607431768211297", "340282366920938463463374607431768211507", "115792089237316195423570985008687907853269984665640564039457584007913129639747"}
 
@@ -212,9 +222,17 @@ func init() {
 	ro("Cmp", "zy", func(s *plan.BigStep, a *aArgs) string { return fmt.Sprint(a.z.Cmp(a.y), a.z.CmpAbs(a.y)) },
 		func(s *plan.BigStep, m *mArgs) string { return fmt.Sprint(m.z.Cmp(m.y), m.z.CmpAbs(m.y)) })
 	ro("Props", "z", func(s *plan.BigStep, a *aArgs) string {
-		return fmt.Sprint(a.z.Sign(), a.z.BitLen(), a.z.IsInt64(), a.z.IsUint64(), a.z.TrailingZeroBits(), a.z.Bit(int(s.N)), a.z.Bit(0))
+		out := fmt.Sprint(a.z.Sign(), a.z.BitLen(), a.z.IsInt64(), a.z.IsUint64(), a.z.TrailingZeroBits(), a.z.Bit(int(s.N)), " ")
+		for _, i := range bitProbes {
+			out += fmt.Sprint(a.z.Bit(i))
+		}
+		return out
 	}, func(s *plan.BigStep, m *mArgs) string {
-		return fmt.Sprint(m.z.Sign(), m.z.BitLen(), m.z.IsInt64(), m.z.IsUint64(), m.z.TrailingZeroBits(), m.z.Bit(int(s.N)), m.z.Bit(0))
+		out := fmt.Sprint(m.z.Sign(), m.z.BitLen(), m.z.IsInt64(), m.z.IsUint64(), m.z.TrailingZeroBits(), m.z.Bit(int(s.N)), " ")
+		for _, i := range bitProbes {
+			out += fmt.Sprint(m.z.Bit(i))
+		}
+		return out
 	})
 	ro("Conv", "z", func(s *plan.BigStep, a *aArgs) string {
 		out := ""
@@ -301,6 +319,32 @@ func init() {
 	dec("GobDecode", func(m *big.Int) []byte { b, _ := m.GobEncode(); return b }, (*apd.BigInt).GobDecode, (*big.Int).GobDecode)
 	dec("UnmarshalJSON", func(m *big.Int) []byte { b, _ := m.MarshalJSON(); return b }, (*apd.BigInt).UnmarshalJSON, (*big.Int).UnmarshalJSON)
 	dec("UnmarshalText", func(m *big.Int) []byte { b, _ := m.MarshalText(); return b }, (*apd.BigInt).UnmarshalText, (*big.Int).UnmarshalText)
+
+	rawdec := func(name string, inputs []string, isHex bool, fa func(z *apd.BigInt, b []byte) error, fm func(z *big.Int, b []byte) error) {
+		get := func(s *plan.BigStep) []byte {
+			t := inputs[int(uint64(s.N)%uint64(len(inputs)))]
+			if isHex {
+				return hexBytes(t)
+			}
+			return []byte(t)
+		}
+		bop(name, "z", "z", func(s *plan.BigStep, a *aArgs) string {
+			err := fa(a.z, get(s))
+			if err != nil {
+				a.z.SetInt64(0)
+			}
+			return fmt.Sprint(err != nil)
+		}, func(s *plan.BigStep, m *mArgs) string {
+			err := fm(m.z, get(s))
+			if err != nil {
+				m.z.SetInt64(0)
+			}
+			return fmt.Sprint(err != nil)
+		})
+	}
+	rawdec("RawUnmarshalJSON", rawJSON, false, (*apd.BigInt).UnmarshalJSON, (*big.Int).UnmarshalJSON)
+	rawdec("RawUnmarshalText", rawText, false, (*apd.BigInt).UnmarshalText, (*big.Int).UnmarshalText)
+	rawdec("RawGobDecode", rawGob, true, (*apd.BigInt).GobDecode, (*big.Int).GobDecode)
 
 	// streams
 	bop("Fscan", "zx", "z", func(s *plan.BigStep, a *aArgs) string {
@@ -491,6 +535,12 @@ var bigBoundary = func() []string {
 			out = append(out, v.String(), new(big.Int).Neg(v).String())
 		}
 	}
+	for _, k := range []int64{1, 2, 3, 6, 255} {
+		v := new(big.Int).Lsh(big.NewInt(k), 64)
+		out = append(out, v.String(), new(big.Int).Neg(v).String())
+	}
+	hi := new(big.Int).Sub(two(128), two(64))
+	out = append(out, hi.String(), new(big.Int).Neg(hi).String())
 	out = append(out, "0", "10", "-10", "1000000007", "-999999999999", strings.Repeat("9", 38), strings.Repeat("9", 39), "-"+strings.Repeat("9", 39))
 	return out
 }()
@@ -532,7 +582,7 @@ var bigUnary = []string{"Abs", "Neg", "Not", "Set", "Sqrt"}
 var bigRead = []string{"Cmp", "Props", "Conv", "FillBytes", "Text", "Encode", "Sprintf", "ProbablyPrime"}
 var bigSet = []string{"SetInt64", "SetUint64", "NewBigInt", "SetString", "SetBytes", "SetBits", "SetMathBigInt"}
 var bigMisc = []string{"Lsh", "Rsh", "SetBit", "QuoRem", "DivMod", "Exp", "ExpSmall", "ModInverse", "ModSqrt", "GCD", "Binomial", "MulRange", "Rand"}
-var bigDecode = []string{"GobDecode", "UnmarshalJSON", "UnmarshalText"}
+var bigDecode = []string{"GobDecode", "UnmarshalJSON", "UnmarshalText", "RawUnmarshalJSON", "RawUnmarshalText", "RawGobDecode"}
 var bigStream = []string{"Fscan", "FormatState"}
 
 var setStrings = []string{"0", "-0", "+5", "12345678901234567890", "-340282366920938463463374607431768211456", "0x1f", "0b101", "0o17", "1_000", "ff", "zz", "", "-", "9223372036854775807", "9223372036854775808", "-9223372036854775808", "-9223372036854775809", "18446744073709551615", "18446744073709551616", " 1", "1 ", "1e3", "0X1F", "_1", "1__0"}
@@ -685,6 +735,10 @@ func GenBig(seed, run uint64, tier, mode string) *plan.Plan {
 			st.Op = pick(r, bigDecode)
 			st.F = []string{"", "", "flip", "trunc", "extend", "empty"}[r.Intn(6)]
 			st.FK = r.Intn(4096)
+			if strings.HasPrefix(st.Op, "Raw") {
+				st.F = ""
+				st.N = int64(r.Intn(64))
+			}
 		default:
 			st.Op = pick(r, bigStream)
 			st.N = int64(r.Intn(64))
